@@ -43,11 +43,19 @@ def load_prop(pid):
 
 def locked_make(targets, timeout=1500):
     """Regenerate Gen/*.v from the repo and build the given targets (full .vo) under a lock."""
+    if COQ != ROOT / "coq":
+        COQ.mkdir(parents=True, exist_ok=True)
+        with open(ROOT / "coq" / ".lock", "a") as lk0:
+            fcntl.flock(lk0, fcntl.LOCK_SH)
+            subprocess.run(["rsync", "-a", "--delete", "--exclude", ".lock", "--exclude", "theories/Gen/", str(ROOT / "coq") + "/", str(COQ) + "/"], check=True)
     (COQ / ".lock").touch()
     with open(COQ / ".lock") as lk:
         fcntl.flock(lk, fcntl.LOCK_EX)
         gen = subprocess.run([lib.PY, str(ROOT / "gen" / "translate.py"), str(lib.REPO), str(COQ / "theories" / "Gen")],
                              capture_output=True, text=True)
+        if COQ != ROOT / "coq":
+            for gf in (COQ / "theories" / "Gen").glob("*.v"):
+                gf.touch()      # everything that depends on a generated table is rebuilt against this tree's tables
         gen_report = {}
         try:
             gen_report = json.loads(gen.stdout.strip().splitlines()[-1]) if gen.stdout.strip() else {}
@@ -55,7 +63,7 @@ def locked_make(targets, timeout=1500):
             gen_report = {"_error": gen.stdout[-500:] + gen.stderr[-500:]}
         if gen.returncode != 0 and "_error" not in gen_report:
             gen_report["_error"] = gen.stderr[-800:]
-        subprocess.run([str(ROOT / "harness" / "mkproject.sh")], capture_output=True)
+        subprocess.run([str(ROOT / "harness" / "mkproject.sh"), str(COQ)], capture_output=True)
         p = subprocess.run(["timeout", str(timeout), "make", "-j16"] + targets, cwd=COQ, capture_output=True, text=True)
         return p.returncode, p.stdout[-4000:] + p.stderr[-4000:], gen_report
 
@@ -221,12 +229,16 @@ def do_replay(P, pid, replay, workdir):
 
 def do_check(P, pid, tier, seed, t0, workdir):
     rng = random.Random(seed)
+    phases = {}
+    tp = time.time()
     violations = []     # (replay_path, suffix)
     known_lines = []
     findings = {f["id"]: f for f in load_findings() if f.get("property") == pid}
+    for old in REPLAYS.glob(f"{pid}_*.json"):      # replays of earlier runs of this property are stale
+        old.unlink()
 
     # ---------------- A: proof obligations
-    targets = [f"theories/Properties/{pid}.vo"] + list(getattr(P, "EXTRA_TARGETS", []))
+    targets = [f"theories/Properties/{pid}.vo", "theories/" + P.RUN_MODULE.replace(".", "/") + ".vo"] + list(getattr(P, "EXTRA_TARGETS", []))
     rc, make_out, gen_report = locked_make(targets)
     obligations = []
     proof_fail = []
@@ -262,6 +274,7 @@ def do_check(P, pid, tier, seed, t0, workdir):
     if bad:
         proof_fail.append("forbidden constructs: " + ", ".join(bad[:5]))
 
+    phases["proof_s"] = round(time.time() - tp, 1); tp = time.time()
     # ---------------- B, C: correspondence and oracle
     hashseeds = P.HASHSEEDS[tier] if isinstance(getattr(P, "HASHSEEDS", None), dict) else ([0, 1] if tier == "quick" else [0, 1, 2, 3, 4, 5, 6, 7])
     corpus = []
@@ -307,6 +320,7 @@ def do_check(P, pid, tier, seed, t0, workdir):
     if res:
         handle(res, cases, "main")
 
+    phases["cases_s"] = round(time.time() - tp, 1); tp = time.time()
     # ---------------- widened search when a proof or the tie is broken but no failing input yet
     widened = 0
     if (proof_fail or tie_fail) and not oracle_new and hasattr(P, "generate"):
@@ -389,6 +403,7 @@ def do_check(P, pid, tier, seed, t0, workdir):
             "exhaustive": False,
             "explanation": getattr(P, "EXPLANATION", ""),
             "known_findings_reported": known_lines,
+            "phases": phases,
         },
         "assumptions": list(getattr(P, "ASSUMPTIONS", [])) + ["CPython set iteration order is reproducible within a process for fixed PYTHONHASHSEED"],
         "wall_s": round(time.time() - t0, 1),
